@@ -261,7 +261,7 @@ impl Model for M {
             _ => vec![],
         };
         for ev in script {
-            self.step_ev(w, &mut s, ev).expect("scripted prefix");
+            if let Err(f) = self.step_ev(w, &mut s, ev) { engine::prefix_fail(f); }
         }
         if i == 1 || i == 3 {
             assert!(s.links[0].stall_latched(), "scripted history did not latch");
